@@ -442,6 +442,53 @@ func (it *Interp) push(prefix []dec) {
 	it.work.mu.Lock()
 	it.work.items = append(it.work.items, prefix)
 	it.work.mu.Unlock()
+	if forkStatOn {
+		site := "?"
+		for i := len(it.stack) - 1; i >= 0 && i >= len(it.stack)-3; i-- {
+			if i == len(it.stack)-1 {
+				site = it.stack[i].fn.String()
+			} else {
+				site += " <- " + it.stack[i].fn.String()
+			}
+		}
+		forkStatMu.Lock()
+		forkStat[site]++
+		forkStatMu.Unlock()
+	}
+}
+
+// fork-site profile (SYMGO_FORKSTAT=1): which functions split paths most often
+var (
+	forkStatOn = os.Getenv("SYMGO_FORKSTAT") != ""
+	forkStatMu sync.Mutex
+	forkStat   = map[string]int{}
+)
+
+// PrintForkStat prints the 15 most frequent fork sites.
+func PrintForkStat(reset bool) {
+	if !forkStatOn {
+		return
+	}
+	type kv struct {
+		k string
+		v int
+	}
+	var l []kv
+	forkStatMu.Lock()
+	for k, v := range forkStat {
+		l = append(l, kv{k, v})
+	}
+	if reset {
+		forkStat = map[string]int{}
+	}
+	forkStatMu.Unlock()
+	sort.Slice(l, func(i, j int) bool { return l[i].v > l[j].v })
+	for i, e := range l {
+		if i >= 15 {
+			break
+		}
+		fmt.Fprintf(os.Stderr, "fork-site %7d  %s\n", e.v, e.k)
+	}
 }
 
 type workList struct {
